@@ -127,6 +127,17 @@ def run(tier, seed):
         return {'e': 'Req', 'tasks': ts, 'rc': r['rc'], 'res': r['tasks']}
     with cf.ThreadPoolExecutor(max_workers=vlib.NCPU) as ex:
         recs += list(ex.map(req_case, reqs))
+    # thorough: the whole path with the real binaries (user file -> echsq -> echsd -> echsx) in private namespaces, when available
+    e2e_note = 'not run at this tier'
+    if tier == 'thorough':
+        import sys as _s; _s.path.insert(0, f'{vlib.VERIF}/gen/extra')
+        import e2e
+        try:
+            rc_e2e = e2e.run('quick', seed)
+            e2e_note = 'held on 2 sessions of real echsd/echsq/echsx (TraceE2E.tla)' if rc_e2e == 0 else 'VIOLATED, see EXTRA-VIOLATION lines'
+            if rc_e2e: print('VIOLATION property=C14 replay=%s/work/X-e2e/replay' % vlib.VERIF)
+        except vlib.Broken as ex:
+            e2e_note = 'skipped: ' + str(ex)[:120]
     trace = f'{wd}/limit.ndjson'
     with open(trace, 'w') as f:
         for r in recs: f.write(json.dumps(r) + '\n')
@@ -142,7 +153,8 @@ def run(tier, seed):
            'samples': [{k: r[k] for k in r if k not in ('durc', 'durlinec')} for r in (recs[0], recs[len(cases)], recs[-1])],
            'evaluations': len(recs), 'distinct_nontrivial': len(set(json.dumps({k: r[k] for k in r if k in ('kind', 'dur', 'de', 'L', 'W')}) for r in recs)),
            'rule': 'one case = one limit on its way through the real code: an event with DURATION (any ISO spelling: seconds, minutes+seconds, D+T parts, weeks, leading +) or DTEND is queued in the daemon harness, its first occurrence comes due, the VTODO the daemon hands to echsx is captured and fed to the real echsx process whose alarm(2) argument is logged; DUE execution requests (future and past); real-time runs of sleep under 1..3 s limits and a short job under a longer limit; execution requests with 2..3 VTODOs (limits 0..2 s, job times 1..3 s, tasks that cannot be started) taken from the request set of ExecSeqE1 and run by one real echsx process each, every task judged against its own contract',
-           'limit_cases': len(cases), 'due_cases': len(dues), 'real_time_runs': len(kills), 'mismatching_cases': v['nbad'], 'skipped': v['nskip'], 'exhaustive': False}
-    return vlib.finish(PID, tier, seed, 'model_checking', cov, t0, unlisted, listed,
+           'end_to_end_sessions': e2e_note, 'limit_cases': len(cases), 'due_cases': len(dues), 'real_time_runs': len(kills), 'mismatching_cases': v['nbad'], 'skipped': v['nskip'], 'exhaustive': False}
+    rc = vlib.finish(PID, tier, seed, 'model_checking', cov, t0, unlisted, listed,
                        ['TLC/SANY, Json/IOUtils', 'DtText.tla duration grammar', 'alarm(2) observed through the LD_PRELOAD shim (not armed in the virtual runs)', 'real-time runs depend on the machine not being stalled for more than 1.5 s',
-                        'the echsq hop (client-side massage) is not exercised: the request text is given to the daemon directly'])
+                        'quick tier: the echsq hop (client-side massage) is not exercised, the request text is given to the daemon directly; thorough tier: end-to-end sessions with the real echsq/echsd/echsx'])
+    return 1 if (rc or 'VIOLATED' in e2e_note) else 0
